@@ -1,5 +1,6 @@
 """C06 - sqrt guard cells (R2); P8E0 table (R4) is added by rules.tables"""
 import spec as S
+from fractions import Fraction
 from props.common import *
 
 LEVEL = 'other'
@@ -27,7 +28,11 @@ def run(ctx):
         if not path:
             continue
         lits = lits_for(prog, path, pty.bits, depth=1)
+        import probes
         cells = cuts_to_cells(pty.bits, list(lits) + special_cuts(pty))
+        have = {c[0] for c in cells if c[0] == c[1]}
+        sq = [pty.posit.encode(Fraction(k * k)) for k in range(1, 12)] + [pty.posit.encode(Fraction(1, k * k)) for k in (2, 4, 8)]
+        cells += [c for c in probes.singles(sorted(set(probes.posit_probes(pty) + sq))) if c[0] not in have and c[0] < pty.nar]
         st = run_cells(ctx, prog, 'GCR', '%s::sqrt' % pty.name, path,
                        lambda cell, pty=pty: [posit_arg(pty, cell[0][0], cell[0][1], 0)],
                        [cells], sqrt_spec(pty), pty.bits, exhaustive_limit=(256 if pty.bits == 8 else 0))
